@@ -312,9 +312,12 @@ def _codes_of(folder, owner, test, var):
                 return [str(v)]
         if isinstance(test.ops[0], ast.In):
             v = ev(test.comparators[0])
-            if isinstance(v, (tuple, list)) and all(
+            if isinstance(v, dict):
+                v = list(v)       # membership in a table: its keys
+            if isinstance(v, (tuple, list, set, frozenset)) and all(
                     isinstance(x, int) for x in v):
-                return [str(x) for x in v]
+                return [str(x) for x in sorted(v)] if isinstance(
+                    v, (set, frozenset)) else [str(x) for x in v]
     return None
 
 
